@@ -217,7 +217,7 @@ public:
     if (c.family == 3) { a = g.rng.range(1, 2); b = g.rng.range(1, 3); }
     int prefill = (int)g.rng.below(5);
     p.params = {a, b, prefill};
-    int nt = g.rng.range(1, 3);
+    int nt = g.rng.range(1, g.rng.chance(20) ? 4 : 3);
     int next = prefill + 1;
     p.threads.resize(nt);
     int mix = (int)g.rng.below(3); // push heavy runs leave elements inside at destruction
